@@ -288,7 +288,8 @@ def process_pyro_request(environ, path, parameters, start_response):
         print("ERROR handling {0} with params {1}:".format(path, parameters), file=stderr)
         traceback.print_exc(file=stderr)
         start_response('500 Internal Server Error', cors_response_header([('Content-Type', 'application/json; charset=utf-8')], pyro_app.cors))
-        reply = json.dumps(serializers.SerializerBase.class_to_dict(x)).encode("utf-8")
+        # (an attribute that json cannot write, such as the bytes a lost connection had received so far, goes as its repr)
+        reply = json.dumps(serializers.SerializerBase.class_to_dict(x), default=repr).encode("utf-8")
         return [reply]
 
 
